@@ -69,6 +69,14 @@ def sentences(seed, n_random):
                 out.append(b"EST" + so + dst)
         for std in (c + b"EST", b"ES" + c + b"T", b"EST" + c, c * 3):
             out.append(std + b"5EDT,M3.2.0,M11.1.0")
+    # 2d. quoted abbreviations: any byte but '>' (and NUL) may appear inside <...>, at any length from 0 up
+    for inner in (b"", b"A", b"AB", b"+03", b"-0330", b"+", b"-", b",", b"1", b"12345678901234567890", b"<", b"<<A", b"A B", b":::", b"\x80\xff", b"A<B", b"%s", b"/"):
+        q = b"<" + inner + b">"
+        for rest in (b"5", b"-3:30", b"5EDT,M3.2.0,M11.1.0", b"5" + q + b",M3.2.0,M11.1.0", b"5" + q + b"4,J60,300"):
+            out.append(q + rest)
+        out.append(b"EST5" + q + b",M3.2.0,M11.1.0")
+        out.append(b"<" + inner + b"5")                       # unterminated
+        out.append(b"<" + inner + b">>5")                     # one '>' too many
     # 3. random combinations with an occasional bad component
     for _ in range(n_random):
         c = dict(std=pick(ABBR_OK, ABBR_BAD), so=pick(OFF_OK, OFF_BAD), dst=pick(ABBR_OK, ABBR_BAD),
